@@ -34,6 +34,17 @@ Section manager.
          | _ => {| m_raw := answer; m_eps := order answer; m_weighted := weight_mode answer |}
          end.
 
+  (* with endpoint health (C15 decides who is out; here [down] = the hosts whose adapter is currently deactivated): what is
+     installed - for all three selectors alike, mgr_route reads the one list - is the answer minus the endpoints that are
+     out; the weight mode is still that of the whole answer *)
+  Definition is_down (down : list (list N)) (e : ep) : bool := existsb (bytes_eqb (host e)) down.
+  Definition mgr_refresh_h (down : list (list N)) (m : mgr) (answer : list ep) : mgr :=
+    if eps_eqb answer (m_raw m) then m
+    else match answer with
+         | [] => m
+         | _ => {| m_raw := answer; m_eps := order (filter (fun e => negb (is_down down e)) answer); m_weighted := weight_mode answer |}
+         end.
+
   Definition mgr_state (answers : list (list ep)) : mgr := fold_left mgr_refresh answers mgr0.
 
   (* the answer the manager is working from: the last non-empty one *)
